@@ -168,6 +168,7 @@ type PathEnum struct {
 	MaxRevisit int
 	Budget     int
 	MaxDepth   int  // virtual inlining depth for small same-package helpers (default 2)
+	cur        *peState // state in which the naming hook is being called (see key)
 	NoInline   bool // disable virtual inlining
 	Inlined    int  // helper activations inlined (statistics)
 	named      map[*ssa.Function]bool
@@ -500,7 +501,13 @@ func isBool(t types.Type) bool {
 func (pe *PathEnum) cond(v ssa.Value, st *peState) *BX {
 	v = pe.resolve(v, st)
 	if pe.Name != nil {
-		if n := pe.Name(v); n != "" {
+		saved := pe.cur
+		if st != nil {
+			pe.cur = st
+		}
+		n := pe.Name(v)
+		pe.cur = saved
+		if n != "" {
 			return pe.atom(n, v)
 		}
 	}
@@ -684,7 +691,15 @@ func shortCallee(c *ssa.CallCommon) string {
 func (pe *PathEnum) key(v ssa.Value, st *peState) string {
 	v = pe.resolve(v, st)
 	if pe.Name != nil {
-		if n := pe.Name(v); n != "" {
+		// the naming hook may key sub-values itself (isexit(<error>)): it must resolve them in the same state — the
+		// parameters of a virtually inlined helper stand for the caller's arguments
+		saved := pe.cur
+		if st != nil {
+			pe.cur = st
+		}
+		n := pe.Name(v)
+		pe.cur = saved
+		if n != "" {
 			return n
 		}
 	}
